@@ -249,9 +249,35 @@ static std::string mism(const char* kind, const std::string& q, int leaf, const 
   return s.str();
 }
 
+// Allocation-free structural guard for small trees: a malformed tree (cycle, missing leaf) is reported as such and
+// not queried, because FindCollision's traversal need not terminate on it.
+static const char* smallShapeProblem(const Collider& col, int n) {
+  using namespace collider_internal;
+  if ((int)col.internalChildren_.size() != n - 1 || (int)col.nodeBBox_.size() != 2 * n - 1) return "radix tree arrays have the wrong size";
+  int visits[2 * MAXN] = {0}, stack[4 * MAXN], top = 0, steps = 0;
+  stack[top++] = kRoot;
+  visits[kRoot] = 1;
+  while (top > 0) {
+    int node = stack[--top];
+    if (++steps > 4 * n) return "radix tree has a cycle";
+    if (IsLeaf(node)) continue;
+    auto ch = col.internalChildren_[Node2Internal(node)];
+    for (int child : {ch.first, ch.second}) {
+      if (child < 0 || child >= 2 * n - 1) return "radix tree has an out-of-range child";
+      if (++visits[child] > 1) return "a radix tree node is reachable more than once";
+      if (top >= 4 * MAXN) return "radix tree traversal overflow";
+      stack[top++] = child;
+    }
+  }
+  for (int i = 0; i < 2 * n - 1; ++i)
+    if (visits[i] != 1) return "a radix tree node is not reachable from the root";
+  return nullptr;
+}
+
 // Runs every query of Q through both Collisions overloads and compares the recorded (query, leaf) multiset
 // with the all-pairs scan.  L are the current leaf boxes in leaf order.
 static std::string checkColl(const Collider& col, const IB* L, int n, const QuerySet& Q, ChkStat& st, bool functorToo = false) {
+  if (const char* sp = smallShapeProblem(col, n)) return sp;
   uint8_t cnt[MAXQ * MAXN];
   bool bad = false;
   int nq = (int)Q.boxes.size();
@@ -553,25 +579,32 @@ static std::string checkLine(const Collider& col, int n, bool identical, long& n
     s << "point queries: recorded " << got.size() << " pairs, scan says " << want.size();
     return s.str();
   }
-  // self collision
+  // self collision: every leaf queries with its own box; expected per query: all other leaves (identical) or none.
+  // Counted instead of stored (n^2 pairs); `last` detects a leaf reported twice for the same query.
   std::vector<Box> lb;
   for (int l = 0; l < n; ++l) lb.push_back(Box(vec3(leafLo(l), 0, 0), vec3(leafLo(l), 0, 0)));
-  ListRecorder rec3;
-  col.Collisions<true>(rec3, VecView<const Box>(lb.data(), lb.size()));
-  size_t wantSelf = identical ? (size_t)n * (n - 1) : 0;
-  if (rec3.store.size() != wantSelf) return "selfCollision: recorded " + std::to_string(rec3.store.size()) + " pairs, scan says " + std::to_string(wantSelf);
-  if (identical) {
-    got = rec3.store;
-    std::sort(got.begin(), got.end());
-    size_t k = 0;
-    for (int q = 0; q < n; ++q)
-      for (int l = 0; l < n; ++l)
-        if (q != l) {
-          if (got[k] != std::make_pair(q, l)) return "selfCollision: pair set differs from the scan";
-          ++k;
-        }
+  std::vector<int> hits(n, 0), last(n, -1);
+  bool diag = false, dup = false, range = false;
+  auto sf = [&](int q, int l) {
+    if (q < 0 || q >= n || l < 0 || l >= n) {
+      range = true;
+      return;
+    }
+    if (q == l) diag = true;
+    if (last[l] == q) dup = true;
+    last[l] = q;
+    ++hits[q];
+  };
+  auto srec = MakeSimpleRecorder(sf);
+  col.Collisions<true>(srec, VecView<const Box>(lb.data(), lb.size()), false);
+  if (range) return "selfCollision: index out of range";
+  if (diag) return "selfCollision: the diagonal (query i, leaf i) was reported";
+  if (dup) return "selfCollision: a pair was reported twice";
+  for (int q = 0; q < n; ++q) {
+    int wantSelf = identical ? n - 1 : 0;
+    if (hits[q] != wantSelf) return "selfCollision: leaf " + std::to_string(q) + " met " + std::to_string(hits[q]) + " other leaves, scan says " + std::to_string(wantSelf);
+    nPairs += wantSelf;
   }
-  nPairs += (long)wantSelf;
   return "";
 }
 
@@ -588,6 +621,10 @@ static std::string runsStr(const std::vector<uint32_t>& codes) {
 
 static void runLine(Ctx& c, const std::vector<uint32_t>& codes, bool identical, const char* phaseKey) {
   int n = (int)codes.size();
+  if (identical && n > 3000) {  // n^2 self pairs: the all-identical-boxes variant is bounded to n <= 3000
+    c.count("skipped");
+    return;
+  }
   std::string d = std::string(phaseKey) + ":codes=" + runsStr(codes) + (identical ? " boxes=all [0,0]" : " boxes=leaf i at x=i");
   c.describe(d);
   std::vector<Box> lb;
@@ -775,9 +812,10 @@ static std::vector<Seg> family(int fam, int n, bool& shared) {
 // ---------------------------------------------------------------- main
 int main(int argc, char** argv) {
   Runner R("C14", argc, argv);
-  const bool thorough = R.a.thorough();
-  // the sanitizer build runs a smaller quick bound (same phases, smaller alphabets); thorough is identical in both
-  const bool asanQuick = kAsan && !thorough;
+  // The sanitizer build always runs its own (smaller) bound - same phases, smaller alphabets - in both tiers;
+  // the seq-fast build carries the quick / thorough bounds.
+  const bool thorough = R.a.thorough() && !kAsan;
+  const bool asanQuick = kAsan;
   initBin();
   const std::vector<uint32_t> SYM5 = {0, 1, 4, 5, 0x3FFFFFFFu};
   const QuerySet QFULL = makeQFull();
@@ -859,12 +897,13 @@ int main(int argc, char** argv) {
             CN, 24);
   }
 
-  // ---------- Collider, n = 3 under Transform: boxes of {0,1}^2 (9; thorough: all 36) x code sequences over
-  // {0,5,0x3FFFFFFF} (10; thorough: SYM5, 35) x 58 maps.  (n = 3 has only two tree shapes; Transform is per node.)
-  const std::vector<uint32_t> SYM3 = {0, 5, 0x3FFFFFFFu};
+  // ---------- Collider, n = 3 under Transform: the 9 boxes of {0,1}^2 x code sequences over
+  // {0,0x3FFFFFFF} (4; thorough: SYM5, 35) x 58 maps.  (n = 3 has only two tree shapes, both reached by the 4
+  // sequences; Transform works per node.)
+  const std::vector<uint32_t> SYM3 = {0, 0x3FFFFFFFu};
   {
     auto seqs = codeSeqs(3, thorough ? SYM5 : SYM3);
-    const int nb = thorough ? 36 : asanQuick ? 3 : 9;  // ASan quick subset: the 3 boxes [0..0|0..1|1..1] x [0..0]
+    const int nb = asanQuick ? 3 : 9;  // ASan subset: the 3 boxes [0..0|0..1|1..1] x [0..0]
     std::vector<int> radix = {nb, nb, nb, (int)seqs.size(), (int)XFS.size()};
     R.phase("col-n3-xform", product(radix), XFS.size(),
             [&](uint64_t idx, Ctx& c) {
@@ -872,7 +911,7 @@ int main(int argc, char** argv) {
               ColCase cc;
               cc.n = 3;
               for (int i = 0; i < 3; ++i) {
-                cc.L[i] = thorough ? emb2(d[i], 0) : emb2(d[i], 0, IVS, 3);
+                cc.L[i] = emb2(d[i], 0, IVS, 3);
                 cc.codes[i] = seqs[d[3]][i];
               }
               std::string ds = cc.desc();
@@ -991,7 +1030,7 @@ int main(int argc, char** argv) {
               runLine(c, codes, identical, "radix");
               if (idx % 2001 == 0) c.sample(runsStr(codes));
             },
-            {"cases", "pairs_expected", "max_depth_sum"});
+            {"cases", "pairs_expected", "max_depth_sum", "skipped"});
   }
 
   // ---------- long runs of identical codes around kInitialLength (128) and 128*4 (512; thorough: 2048, 8192):
@@ -1022,7 +1061,7 @@ int main(int argc, char** argv) {
               runLine(c, codes, d[3], "radix");
               if (idx % 101 == 0) c.sample(runsStr(codes));
             },
-            {"cases", "pairs_expected", "max_depth_sum"});
+            {"cases", "pairs_expected", "max_depth_sum", "skipped"});
     // two adjacent long runs
     if (asanQuick) Ls = {129, 513};
     std::vector<int> radix2 = {(int)Ls.size(), (int)Ls.size(), 2};
@@ -1035,7 +1074,7 @@ int main(int argc, char** argv) {
               runLine(c, codes, d[2], "radix");
               if (idx % 37 == 0) c.sample(runsStr(codes));
             },
-            {"cases", "pairs_expected", "max_depth_sum"});
+            {"cases", "pairs_expected", "max_depth_sum", "skipped"});
   }
 
   // ---------- 2-D BVH: BVHBuildFromBoxes + BVHCollisions / CollidePairs, all ordered tuples of lattice rectangles
@@ -1131,10 +1170,10 @@ int main(int argc, char** argv) {
           if (a != b && (directed || a < b)) s.push_back({a / m, a % m, b / m, b % m});
       return s;
     };
-    // ASan quick: k = 2 over the 36 undirected segments of {0,1,2}^2, k = 3, 4 over the 12 directed ones of {0,1}^2
-    std::vector<Seg> s72 = segsOf(3, true), s12 = segsOf(2, true), s36 = segsOf(3, false);
+    // ASan quick: k = 2 over the 36 undirected segments of {0,1,2}^2, k = 3 over the 12 directed ones of {0,1}^2, k = 4 over the 6 undirected ones
+    std::vector<Seg> s72 = segsOf(3, true), s12 = segsOf(2, true), s36 = segsOf(3, false), s6 = segsOf(2, false);
     for (int k = 2; k <= (thorough ? 5 : 4); ++k) {
-      const std::vector<Seg>& src = asanQuick ? (k == 2 ? s36 : s12) : k <= 3 ? s72 : s12;
+      const std::vector<Seg>& src = asanQuick ? (k == 2 ? s36 : k == 3 ? s12 : s6) : k <= 3 ? s72 : s12;
       std::vector<int> radix(k, (int)src.size());
       radix.push_back(2);
       radix.push_back(2);
@@ -1259,7 +1298,10 @@ int main(int argc, char** argv) {
   {
     // n <= 8: linear scan; 9..17: one split level; >= 18: the `<= 8` leaf rule is straddled at the second level
     std::vector<int> sizes;
-    for (int n = 0; n <= (asanQuick ? 9 : 12); ++n) sizes.push_back(n);
+    if (asanQuick)
+      sizes = {0, 1, 9};
+    else
+      for (int n = 0; n <= 12; ++n) sizes.push_back(n);
     if (asanQuick) {
       // ASan quick subset: one split level only (the second level is in the seq-fast run and in thorough)
     } else {
